@@ -76,6 +76,7 @@ type Rec struct {
 	Depth     int         `json:"depth"`
 	Extra     int         `json:"extra"`
 	Nodes     uint64      `json:"nodes"`
+	Clamps    int64       `json:"phase_clamps"` // game phase sums above the maximum cut down during the search (hook): the phase may have drifted
 	ElapsedMs float64     `json:"elapsed_ms"`
 	Pv        []int       `json:"pv"`
 	Infos     [][]int     `json:"infos"` // PV lines reported during the search
@@ -242,6 +243,7 @@ func runSearch(s *search.Search, cap *capture, j *Job, rec *Rec, watchdog time.D
 	done := make(chan string, 1)
 	var stopAt time.Time
 	start := time.Now()
+	clamps0 := position.VerifPhaseClamps()
 	go func() {
 		done <- guard(func() {
 			s.StartSearch(*p, *sl)
@@ -303,6 +305,7 @@ func runSearch(s *search.Search, cap *capture, j *Job, rec *Rec, watchdog time.D
 	}
 	rec.Value, rec.Depth, rec.Extra = int(r.BestValue), r.SearchDepth, r.ExtraDepth
 	rec.Nodes = s.NodesVisited()
+	rec.Clamps = position.VerifPhaseClamps() - clamps0
 	rec.Pv = []int{}
 	for _, m := range r.Pv {
 		rec.Pv = append(rec.Pv, specMove(m))
